@@ -194,6 +194,22 @@ def stepSt (st : St) (toks : List String) : St × String :=
       let (authentic, rest) := match rest with
         | "raw" :: r => (false, r)
         | r => (true, r)
+      -- removals of joined entries (destroy from the neighbour, sweep) are NOT events of the model (design.d/C08.md);
+      -- the driver applies them to its copy of the node so that the correspondence stays in step afterwards
+      match st.nodes.find? (fun e => e.1 == nid), rest with
+      | some (_, n, ids), ["removeexit", c] =>
+        match c.toNat? with
+        | some c =>
+          let n' : N := { n with exits := upd n.exits c none }
+          (⟨setNode st.nodes nid (n', ids)⟩, s!"[] | {showState n' ids}")
+        | none => (st, "bad-op")
+      | some (_, n, ids), ["removerelay", c] =>
+        match c.toNat? with
+        | some c =>
+          let n' : N := { n with relays := upd n.relays c none }
+          (⟨setNode st.nodes nid (n', ids)⟩, s!"[] | {showState n' ids}")
+        | none => (st, "bad-op")
+      | _, _ =>
       match st.nodes.find? (fun e => e.1 == nid), parseEv rest with
       | some (_, n, ids), none =>
         if rest == ["show"] then (st, s!"[] | {showState n ids}") else (st, "bad-op")
